@@ -45,6 +45,7 @@
 package interp // import "golang.org/x/tools/go/ssa/interp"
 
 import (
+	"strings"
 	"fmt"
 	"go/token"
 	"go/types"
@@ -326,7 +327,15 @@ func visitInstr(fr *frame, instr ssa.Instruction) continuation {
 		fr.env[instr] = makeMap(instr.Type().Underlying().(*types.Map).Key(), reserve)
 
 	case *ssa.Range:
-		fr.env[instr] = rangeIter(fr.get(instr.X), instr.X.Type())
+		it := rangeIter(fr.get(instr.X), instr.X.Type())
+		if sm, ok := it.(*sortedMapIter); ok && strings.HasPrefix(pkgPathOf(fr.fn), "github.com/terra-money/alliance") {
+			// a range over a map inside the repository: a nondeterminism site
+			fr.i.eng.NondetSites["range-over-map in "+fr.fn.String()]++
+			if fr.i.eng.SymMapOrder && len(sm.keys) >= 2 {
+				sm.permute(fr.i.eng.choose(factorial(len(sm.keys)), nil, "map iteration order in "+fr.fn.String()))
+			}
+		}
+		fr.env[instr] = it
 
 	case *ssa.Next:
 		fr.env[instr] = fr.get(instr.Iter).(iter).next()
